@@ -159,18 +159,19 @@ def run_stack(ctx, pid):
         "defect": lambda: ctx.tlc(SPEC, "MC_BehaviorStack_defect.cfg", module="MC_BehaviorStack", timeout=600, expect_fail=True),
         "exh": lambda: gen_behaviours(ctx, "Gen_BehaviorStack", "Gen_BehaviorStack.cfg" if quick else "Gen_BehaviorStack_t.cfg"),
         "sim": lambda: gen_behaviours(ctx, "Gen_BehaviorStack", "Sim_BehaviorStack.cfg", simulate="num=%d" % (150 if quick else 1200)),
-        # histories with PID.Restart (each restart costs >= 10 ms of real time: bounded separately)
+        # histories with PID.Restart / a panicking handler restarted by the supervisor (an explicit restart costs
+        # >= 10 ms of real time: bounded separately)
         "rst": lambda: gen_behaviours(ctx, "Gen_BehaviorStack", "GenR_BehaviorStack.cfg" if quick else "GenR_BehaviorStack_t.cfg"),
     })
     ctx.log("design: %d distinct states; the transcription (repaired) refines the documented stack" % g["mc"].distinct)
     if g["defect"].violated != "HandlerIsIdealTop":
         raise vlib.Infra("Defects={UnBecomePushes} no longer violates HandlerIsIdealTop (stale Defects branch?)")
     exh, sim = g["exh"], g["sim"]
-    rst = [b for b in g["rst"] if any(o["op"] == "Restart" for o in b)]
+    rst = [b for b in g["rst"] if any(o["op"] in ("Restart", "Crash") for o in b)]
     if len(exh) < 1000 or len(sim) < 100 or len(rst) < 100:
         raise vlib.Infra("behaviour generation produced too little (%d exhaustive, %d random, %d with restart)" % (len(exh), len(sim), len(rst)))
     behaviours = exh + rst + sim
-    ctx.log("behaviours: %d exhaustive + %d exhaustive with Restart + %d random" % (len(exh), len(rst), len(sim)))
+    ctx.log("behaviours: %d exhaustive + %d exhaustive with Restart/Crash + %d random" % (len(exh), len(rst), len(sim)))
 
     rows, stats, trace = replay(ctx, "stack", behaviours)
     ctx.log("replayed on the real actor system: %d events in %d ms" % (stats["events"], stats["wall_ms"]))
@@ -188,12 +189,13 @@ def run_stack(ctx, pid):
         "samples": [ops_of(behaviours[0]), ops_of(behaviours[len(exh) // 2]), ops_of(behaviours[-1])],
         "evaluations": stats["behaviours"], "distinct_nontrivial": len(distinct),
         "rule": "every step history of length D over {Deliver, Become(b), BecomeStacked(b), UnBecomeStacked, UnBecome} allowed by "
-                "BehaviorStack.tla (TLC BFS), every history of length D-1 that also contains PID.Restart, plus TLC random walks, each executed on a fresh real actor and followed by an epilogue that "
+                "BehaviorStack.tla (TLC BFS), every history of length D-1 that also contains PID.Restart or Crash (the handler panics, supervisor directive Restart), plus TLC random walks, each executed on a fresh real actor and followed by an epilogue that "
                 "pops the whole stack one UnBecomeStacked per message; non-trivial = contains a switch call followed by a later Deliver; "
                 "distinct = distinct step sequences",
         "exhaustive": True, "exhaustive_histories": len(exh), "exhaustive_histories_with_restart": len(rst),
         "random_walks": len(sim), "events_validated": len(rows),
         "deliveries_without_handler": deaf, "restarts_executed": sum(1 for r in rows if r["op"] == "Restart"),
+        "supervisor_restarts_after_panic": sum(1 for r in rows if r["op"] == "Crash"),
         "monitor_mismatches": len(mism), "conformance_drift": drift,
     }
     assumptions = [
